@@ -476,6 +476,13 @@ def r20_1(ctx, rr):
         ok = len(seeks) >= 1 and not seeks[0][1]["conds"]
         if ok:
             ok = is_tried(F, pm, seeks[0][1]["node"]) == "?"
+        if ok:
+            # no way out with Ok before the seek: every `return` that precedes it hands back an error
+            order = list(walk(b.body))
+            pos = {id(x): i for i, x in enumerate(order)}
+            sp = pos[id(seeks[0][1]["node"])]
+            early = [x for x in order if x.get("k") == "Ret" and pos[id(x)] < sp and not (("e" in x) and (show(F, x["e"]).startswith("v1::Err(") or "from_residual" in show(F, x["e"]) or "FromResidual" in show(F, x["e"])))]
+            ok = not early
         rr.ob(ok, key=key, sample={"fn": b.key, "seek": show(F, seeks[0][1]["node"]) if seeks else None})
         if not ok:
             rr.violate(key, "%s must unconditionally seek its source to the start (`seek(SeekFrom::Start(0))?` or `rewind()?`) before returning Ok: otherwise the second pass continues from the current offset" % b.key, b.span)
@@ -788,3 +795,155 @@ def r17_5(ctx, rr):
         rr.ob(bounded, key=key)
         if not bounded:
             rr.violate(key, "try_seed returns SolveError::%s before duplicate detection (which happens per shard in par_solve), and build_loop retries it without a bound: with check_dups(true) and many copies of one key every seed fails the same way, DuplicateKey is never reported and the call does not terminate" % v, F.loc(a["body"]) if a is not None else bl.span)
+
+
+@rule("R07.11", props=["C07", "C10", "C12"], floor=2, title="functions and filters over a BitFieldVec backend allocate it with new_unaligned (the padding word is the precondition of the unaligned queries)")
+def r07_11(ctx, rr):
+    """VFunc::get_unaligned / VFilter::contains_unaligned read with get_unaligned_unchecked, which may touch up to
+    W::BYTES bytes after the last element: every BitFieldVec handed to a VFunc by the builder must come from
+    new_unaligned."""
+    F = ctx.F()
+    bodies = [b for b in F.fns() if b.file.endswith("func/vbuilder.rs") and b.name in ("try_build_func", "try_build_filter") and "BitFieldVec" in (b.impl_self or "")]
+    if len(bodies) < 2:
+        raise AnchorMissing("expected try_build_func and try_build_filter for the BitFieldVec backend, found %d" % len(bodies))
+    for b in bodies:
+        ctors = [n for n in walk(b.body) if n.get("k") == "Call" and (F.callee(n) or "").startswith("bits::bit_field_vec::BitFieldVec") and strip_generics(F.callee(n)).split("::")[-1] in ("new", "new_unaligned", "with_capacity", "from_raw_parts")]
+        rr.instances += 1
+        ok = bool(ctors) and all(strip_generics(F.callee(n)).split("::")[-1] == "new_unaligned" for n in ctors)
+        key = "%s:backend-has-padding-word" % short_fn(b.key)
+        rr.ob(ok, key=key, sample={"fn": b.key, "constructors": [strip_generics(F.callee(n)).split("::")[-1] for n in ctors]})
+        if not ok:
+            rr.violate(key, "%s allocates the BitFieldVec backend with %s: get_unaligned / contains_unaligned on the resulting structure read past the last word for keys whose cells are at the end of the backend (BitFieldVec::new_unaligned adds the padding word they need)" % (b.key, [strip_generics(F.callee(n)).split("::")[-1] for n in ctors] or "no BitFieldVec constructor"), F.loc(ctors[0]) if ctors else b.span)
+
+
+@rule("R20.4", props=["C20"], floor=2, title="a decoding lender re-creates its decoder on rewind the way its constructor created it (same constructor, same configuration calls)")
+def r20_4(ctx, rr):
+    """The second pass must decode what the first pass decoded. A decoder configured in `new` (window limit,
+    dictionary, multi-member mode, ...) and re-created bare in `rewind` accepts a stream on the first pass and
+    fails or differs on the next."""
+    F = ctx.F()
+    adts = {}
+    for b in F.fns():
+        if b.file.endswith("utils/lenders.rs") and b.impl_adt and ("Zstd" in b.impl_adt or "Gzip" in b.impl_adt) and b.name in ("new", "rewind", "from_path", "from_file"):
+            adts.setdefault(b.impl_adt, {}).setdefault(b.name, b)
+    if len(adts) < 2:
+        raise AnchorMissing("expected the zstd and gzip line lenders")
+
+    def decoder_calls(b):
+        """names of the calls that create or configure a decoder: constructor functions of a *Decoder type and
+        every method invoked on a value whose type mentions Decoder"""
+        ctor, conf = [], []
+        for n in walk(b.body):
+            if n.get("k") == "Call":
+                c = strip_generics(F.callee(n) or "")
+                if "Decoder" in c and c.split("::")[-1] in ("new", "with_buffer", "with_dictionary", "with_prepared_dictionary", "with_context", "multi"):
+                    ctor.append(c.split("::")[-2] + "::" + c.split("::")[-1] if c.split("::")[-1] != "new" else c.split("::")[-2] + "::new")
+            if n.get("k") == "MethodCall" and "Decoder" in (F.ty(n["recv"]) + F.tya(n["recv"])) and "BufReader" not in F.ty(n["recv"]).split("Decoder")[0][-12:]:
+                if n["name"] not in ("finish", "into_inner", "get_mut", "get_ref", "read_line", "read", "buffer", "consume", "fill_buf"):
+                    conf.append(n["name"])
+        return sorted(ctor), sorted(conf)
+    for adt, fns in sorted(adts.items()):
+        if "rewind" not in fns or "new" not in fns:
+            continue
+        nc, nconf = decoder_calls(fns["new"])
+        rc, rconf = decoder_calls(fns["rewind"])
+        rr.instances += 1
+        # Decoder::new(r) is Decoder::with_buffer(BufReader::new(r)): the two constructors are the same decoder
+        norm = lambda cs: sorted("Decoder" for _ in cs)
+        ok = norm(nc) == norm(rc) and nconf == rconf
+        key = "%s:rewind-recreates-decoder-like-new" % adt.split("::")[-1]
+        rr.ob(ok, key=key, sample={"lender": adt, "new": {"constructors": nc, "configuration": nconf}, "rewind": {"constructors": rc, "configuration": rconf}})
+        if not ok:
+            rr.violate(key, "%s: `new` creates its decoder with %s and configures it with %s, `rewind` re-creates it with %s and %s: after a rewind the lender decodes under a different configuration than on the first pass" % (adt, nc, nconf or "nothing", rc, rconf or "nothing"), fns["rewind"].span)
+
+
+@rule("R07.12", props=["C07", "C08", "C17"], floor=1, title="par_solve: every worker keeps receiving shards until the channel is closed (or it reports an error / sees the failed flag)")
+def r07_12(ctx, rr):
+    """There are num_threads workers for num_shards shards. A worker that handles one shard and exits leaves the
+    remaining shards unsolved when there are more shards than workers, and par_solve still returns Ok (the feeder
+    just sees the channel close)."""
+    F = ctx.F()
+    b = F.one(r"^func::vbuilder::VBuilder::<W, D, S, E>::par_solve$")
+    pm = {id(n): ps for n, ps in walk_with_parents(b.body)}
+    recvs = [n for n in walk(b.body) if n.get("k") == "MethodCall" and n["name"] in ("recv", "recv_timeout", "try_recv", "iter", "into_iter") and "crossbeam_channel" in (F.callee(n) or "") and "Receiver" in (F.ty(n["recv"]) + F.tya(n["recv"]))]
+    # those executed inside a spawned closure (the workers), not the coordinator's wait on the error channel
+    workers = [n for n in recvs if sum(1 for p in pm[id(n)] if p.get("k") == "Closure") >= 2]
+    if not workers:
+        raise AnchorMissing("par_solve: no receive inside a worker closure")
+    for n in workers:
+        rr.instances += 1
+        ps = pm[id(n)]
+        # the innermost closure is the worker body; the receive must sit in a loop inside it
+        ci = max(i for i, p in enumerate(ps) if p.get("k") == "Closure")
+        in_loop = any(p.get("k") == "Loop" for p in ps[ci:]) or n["name"] in ("iter", "into_iter")
+        key = "par_solve:worker-drains-channel"
+        rr.ob(in_loop, key=key)
+        if not in_loop:
+            rr.violate(key, "par_solve: a worker thread receives with `%s` outside any loop: it solves one shard and exits, so with more shards than worker threads the rest are never solved and par_solve still returns Ok (their cells keep the random prefill: false negatives / wrong values)" % show(F, n)[:60], F.loc(n))
+
+
+RESULT_SINKS_OK = {
+    # (function short name, callee) whose Result is deliberately discarded, with the reason
+    ("par_solve", "send"): "a worker reporting an error while the coordinator has already gone: nothing left to tell",
+    ("par_solve", "set_current_thread_priority"): "thread priority is best effort",
+    ("next", "set_len"): "truncating a consumed bucket file only releases disk space early; failure changes nothing that is read later",
+}
+
+
+@rule("R17.6", props=["C17", "C07", "C08"], floor=20, title="no Result produced in the builder, the signature store or the lenders is discarded (a dropped `?` turns a failed attempt into Ok)")
+def r17_6(ctx, rr):
+    """Every expression statement (or `let _ =`) of type Result in src/func/vbuilder.rs, src/utils/sig_store.rs
+    and src/utils/lenders.rs must be consumed: `?`, match, if let, a combinator whose value is used, or returned.
+    rustc only warns (unused_must_use), and the warning drowns among the build's other warnings."""
+    F = ctx.F()
+    bodies = [b for b in F.fns() if not is_derived(b) and b.file.endswith(("func/vbuilder.rs", "utils/sig_store.rs", "utils/lenders.rs")) and "::tests::" not in b.key]
+    n_results = 0
+    for b in bodies:
+        for blk in walk(b.body):
+            if blk.get("k") != "Block":
+                continue
+            for st in blk["stmts"]:
+                dropped = None
+                if st.get("k") == "LetStmt":
+                    if st["pat"].get("k") == "PWild" and "init" in st and F.ty(st["init"]).startswith(("std::result::Result", "core::result::Result", "Result<")):
+                        dropped = st["init"]
+                elif F.ty(st).startswith(("std::result::Result", "core::result::Result", "Result<")) and st.get("k") in ("MethodCall", "Call"):
+                    dropped = st
+                if dropped is None:
+                    continue
+                n_results += 1
+                callee = (dropped.get("name") or (F.callee(dropped) or "").split("::")[-1])
+                fn_short = b.name
+                if (fn_short, callee) in RESULT_SINKS_OK:
+                    rr.instances += 1
+                    rr.ob(True, key="%s:%s:discarded-by-design" % (fn_short, callee), nontrivial=False)
+                    continue
+                rr.instances += 1
+                key = "%s:%s:result-discarded" % (short_fn(b.key), callee)
+                rr.ob(False, key=key)
+                rr.violate(key, "%s discards the Result of `%s`: an error there (a failed shard, a duplicate, an I/O error) is lost and the caller proceeds as if the step had succeeded" % (b.key, show(F, dropped)[:80]), F.loc(dropped))
+    # every Result-typed call that IS consumed counts as an instance too (floor: the rule keeps seeing them)
+    for b in bodies:
+        for n in walk(b.body):
+            if n.get("k") == "Match" and n.get("src") == "TryDesugar":
+                rr.instances += 1
+                rr.ob(True, key="try", nontrivial=False)
+
+
+@rule("R17.7", props=["C17", "C07"], floor=3, title="par_solve never unwraps a channel operation: a closed channel is the normal way a failed attempt shuts down")
+def r17_7(ctx, rr):
+    F = ctx.F()
+    b = F.one(r"^func::vbuilder::VBuilder::<W, D, S, E>::par_solve$")
+    chan = [n for n in walk(b.body) if n.get("k") == "MethodCall" and n["name"] in ("send", "recv", "try_send", "try_recv", "send_timeout", "recv_timeout") and "crossbeam_channel" in (F.callee(n) or "")]
+    if len(chan) < 3:
+        raise AnchorMissing("par_solve: expected the channel sends/receives")
+    pm = {id(n): ps for n, ps in walk_with_parents(b.body)}
+    for n in chan:
+        rr.instances += 1
+        ps = pm[id(n)]
+        par = ps[-1] if ps else {}
+        bad = par.get("k") == "MethodCall" and par.get("recv") is n and par["name"] in ("unwrap", "expect", "unwrap_unchecked")
+        key = "par_solve:%s:not-unwrapped" % n["name"]
+        rr.ob(not bad, key=key)
+        if bad:
+            rr.violate(key, "par_solve calls `.%s()` on `%s`: when every worker has left after a failure (or the coordinator has), the channel is closed and the operation fails -- the thread then panics and thread::scope re-raises the panic, so try_build_* panics instead of returning the error or retrying" % (par["name"], show(F, n)[:60]), F.loc(n))
